@@ -167,6 +167,12 @@ def iterMut {σ : Type} (xs : Bytes) (st : σ) (f : σ → UInt8 → Option (UIn
       | none => none
       | some (bs', st'') => some (b' :: bs', st'')
 
+/-- `opt.ok_or_else(|| err)` -/
+def okOr {α : Type} (o : Option α) (e : ZipVerif.IoKind) : IoRes α :=
+  match o with
+  | some a => .ok a
+  | none => .err e
+
 /-- `assert!(c)` -/
 def assert (c : Bool) : Option Unit := if c then some () else none
 
